@@ -247,8 +247,9 @@ func (l *Lexer) GetLineAndCol(pos int) (string, int, int) {
 	col := 1
 	lineStart := 0
 	inLine := false
-	for i, r := range l.src {
-		if r == '\n' {
+	// byte offsets, not runes: pos can point inside a multi-byte character
+	for i := 0; i < len(l.src); i++ {
+		if l.src[i] == '\n' {
 			if inLine {
 				return l.src[lineStart:i], line, col
 			}
